@@ -1,77 +1,18 @@
-(* C20: the re-implemented walkers of x2j-wrapper (Model/X2jWrap.v) against the
-   core walkers (Model/KeyValues.v) and the declarative path semantics
-   (Spec/PathSem.v, Spec/Wrappers.v); the thin wrapper bodies against the
-   documented compositions. *)
+(* C20: the re-implemented walkers of x2j-wrapper (Model/X2jWrap.v, following the repaired code)
+   against the core walkers (Model/KeyValues.v) and the declarative path semantics
+   (Spec/PathSem.v, Spec/Wrappers.v). *)
 From Coq Require Import Permutation.
 From Mxj Require Import Model.X2jWrap Spec.PathSem Spec.KeySearch Spec.Wrappers
   Proofs.StrLemmas Proofs.C07P Proofs.C08P.
 
 (* ================= PathsForKey / PathForKeyShortest ================= *)
+(* the two breadcrumb walkers are the same function *)
+(* after 5ff47ea the wrapper's hasKeyPath is, term for term, the core's: the two fixpoints are convertible *)
+Lemma xw_has_key_path_core k : forall m c, xw_has_key_path c m k = has_key_path c m k.
+Proof. intros m c. reflexivity. Qed.
 
-Lemma forallb_in {A} (p : A -> bool) l x : forallb p l = true -> In x l -> p x = true.
-Proof. intros H Hin. rewrite forallb_forall in H. exact (H x Hin). Qed.
-
-Lemma existsb_false_in {A} (p : A -> bool) l x : existsb p l = false -> In x l -> p x = false.
-Proof.
-  intros H Hin. destruct (p x) eqn:E; [|reflexivity].
-  assert (existsb p l = true) by (apply existsb_exists; exists x; auto). congruence.
-Qed.
-
-(* a tree without the key yields no crumb, whatever the walker *)
-Lemma no_key_no_path k : forall m c,
-  key_occurs k m = false -> xw_has_key_path c m k = [] /\ has_key_path c m k = [].
-Proof.
-  induction m as [| | | | | | | |vv IH|l IH] using value_ind2; intros c H; try (split; reflexivity).
-  - cbn [key_occurs] in H. apply orb_false_iff in H as [Hk Hc].
-    cbn [xw_has_key_path has_key_path]. rewrite Hk. cbn [app].
-    split; apply flat_map_nil_in; intros kv Hin;
-      (rewrite Forall_forall in IH; apply (IH kv Hin); exact (existsb_false_in _ _ _ Hc Hin)).
-  - cbn [key_occurs] in H. cbn [xw_has_key_path has_key_path].
-    split; apply flat_map_nil_in; intros x Hin;
-      (rewrite Forall_forall in IH; apply (IH x Hin); exact (existsb_false_in _ _ _ H Hin)).
-Qed.
-
-Lemma xw_has_key_path_nonnested k : forall m c,
-  key_not_nested k m = true -> xw_has_key_path c m k = has_key_path c m k.
-Proof.
-  induction m as [| | | | | | | |vv IH|l IH] using value_ind2; intros c H; try reflexivity.
-  - cbn [key_not_nested] in H. cbn [xw_has_key_path has_key_path].
-    rewrite Forall_forall in IH.
-    destruct (has_key k vv) eqn:Hk.
-    + apply negb_true_iff in H. f_equal.
-      rewrite !flat_map_nil_in; [reflexivity| |]; intros kv Hin;
-        apply (no_key_no_path k (snd kv)); exact (existsb_false_in _ _ _ H Hin).
-    + cbn [app]. apply flat_map_ext_in. intros kv Hin. apply (IH kv Hin).
-      exact (forallb_in _ _ _ H Hin).
-  - cbn [key_not_nested] in H. cbn [xw_has_key_path has_key_path].
-    rewrite Forall_forall in IH.
-    apply flat_map_ext_in. intros x Hin. apply (IH x Hin). exact (forallb_in _ _ _ H Hin).
-Qed.
-
-Theorem xw_paths_nonnested m k :
-  key_not_nested k m = true -> xw_paths_for_key m k = paths_for_key m k.
-Proof. intros H. unfold xw_paths_for_key, paths_for_key. rewrite xw_has_key_path_nonnested by exact H. reflexivity. Qed.
-
-Local Open Scope string_scope.
-Definition c20_nested : value := VMap [(s"a", VMap [(s"k", VMap [(s"k", VInt 1)])])].
-
-(* the crumb mutation: a key at two depths on one branch *)
-Theorem xw_paths_refuted :
-  exists m k,
-    xw_paths_for_key m k = [s"a.k"; s"a.k.k.k"] /\
-    paths_for_key m k = [s"a.k"; s"a.k.k"] /\
-    ~ Permutation (xw_paths_for_key m k) (paths_for_key m k) /\
-    path_existsb [s"a"; s"k"; s"k"; s"k"] m = false /\
-    xw_values_from m (s"a.k.k.k") true = Ok [].
-Proof.
-  exists c20_nested, (s"k").
-  split; [vm_compute; reflexivity|]. split; [vm_compute; reflexivity|].
-  split; [|split; vm_compute; reflexivity].
-  intros HP.
-  assert (Hin : In (s"a.k.k.k") (paths_for_key c20_nested (s"k"))).
-  { apply (Permutation_in _ HP). vm_compute. right. left. reflexivity. }
-  vm_compute in Hin. destruct Hin as [E|[E|[]]]; discriminate E.
-Qed.
+Theorem xw_paths_core m k : xw_paths_for_key m k = paths_for_key m k.
+Proof. unfold xw_paths_for_key, paths_for_key. rewrite xw_has_key_path_core. reflexivity. Qed.
 
 Lemma xw_shortest_loop_spec : forall t b, xw_shortest_loop b (path_len b) t = shortest_from b t.
 Proof.
@@ -89,11 +30,9 @@ Qed.
 Theorem xw_shortest_spec m k : xw_path_for_key_shortest m k = shortest (xw_paths_for_key m k).
 Proof. apply xw_shortest_of_spec. Qed.
 
-Theorem xw_shortest_nonnested m k :
-  key_not_nested k m = true -> xw_path_for_key_shortest m k = shortest (paths_for_key m k).
-Proof. intros H. rewrite xw_shortest_spec, xw_paths_nonnested by exact H. reflexivity. Qed.
+Theorem xw_shortest_core m k : xw_path_for_key_shortest m k = shortest (paths_for_key m k).
+Proof. rewrite xw_shortest_spec, xw_paths_core. reflexivity. Qed.
 
-Local Close Scope string_scope.
 
 (* ================= ValuesForKey ================= *)
 Theorem xw_has_key_final k : k <> star -> forall m, flat_map final (xw_has_key m k) = has_key_walk m k [].
@@ -114,165 +53,48 @@ Theorem xw_has_key_star_differs :
 Proof. exists (VMap [(s "a", VInt 1)]). split; [reflexivity|discriminate]. Qed.
 
 (* ================= ValuesFromKeyPath ================= *)
-Lemma rflat_map_spec {A B} (f : A -> res (list B)) (g : A -> list B) (bad : A -> Prop) l :
-  (forall x, In x l -> match f x with Ok y => y = g x | Panic => bad x | Err _ => False end) ->
-  match rflat_map f l with
-  | Ok r => r = flat_map g l
-  | Panic => exists x, In x l /\ bad x
-  | Err _ => False
-  end.
+Lemma keep_not_skip ga kv : xw_skip_attr (fst kv) ga = negb (keep_entry ga kv).
 Proof.
-  induction l as [|a l IH]; intros H; cbn [rflat_map flat_map]; [reflexivity|].
-  pose proof (H a (or_introl eq_refl)) as Ha.
-  assert (Hl : forall x, In x l -> match f x with Ok y => y = g x | Panic => bad x | Err _ => False end)
-    by (intros x Hx; apply H; right; exact Hx).
-  specialize (IH Hl).
-  destruct (f a) as [y|e|]; cbn [bind].
-  - destruct (rflat_map f l) as [r|e|]; cbn [bind].
-    + subst. reflexivity.
-    + exact IH.
-    + destruct IH as [x [Hx Hb]]. exists x. split; [right; exact Hx|exact Hb].
-  - exact Ha.
-  - exists a. split; [left; reflexivity|exact Ha].
+  unfold xw_skip_attr, keep_entry, attr_key. destruct (fst kv) as [|c k']; cbn [prefixb].
+  - destruct ga; reflexivity.
+  - rewrite andb_true_r. rewrite Ascii.eqb_sym. destruct (Ascii.eqb c hyphen); destruct ga; reflexivity.
 Qed.
 
-Lemma forallb_false_in {A} (p : A -> bool) l x : In x l -> p x = false -> forallb p l = false.
+Lemma star_step_map ga (f : value -> list value) mm :
+  flat_map (fun kv => if xw_skip_attr (fst kv) ga then [] else f (snd kv)) mm =
+  flat_map f (sel_map_f ga star mm).
 Proof.
-  intros Hin Hp. destruct (forallb p l) eqn:E; [|reflexivity].
-  rewrite (forallb_in _ _ _ E Hin) in Hp. discriminate.
+  unfold sel_map_f. rewrite star_eqb, flat_map_map.
+  rewrite <- (filter_flat_map (fun kv => f (snd kv)) (keep_entry ga) mm).
+  apply flat_map_ext. intros kv. rewrite keep_not_skip. destruct (keep_entry ga kv); reflexivity.
 Qed.
 
-Lemma nek_map_false mm kv :
-  In kv mm -> (fst kv = [] \/ no_empty_key (snd kv) = false) -> no_empty_key (VMap mm) = false.
-Proof.
-  intros Hin [H|H]; cbn [no_empty_key]; apply andb_false_iff.
-  - left. apply (forallb_false_in _ _ kv Hin). rewrite H. reflexivity.
-  - right. apply (forallb_false_in _ _ kv Hin). exact H.
-Qed.
-
-Lemma nek_list_false l x : In x l -> no_empty_key x = false -> no_empty_key (VList l) = false.
-Proof. intros Hin H. cbn [no_empty_key]. exact (forallb_false_in _ _ x Hin H). Qed.
-
-Lemma nek_lookup_false k mm v : lookup k mm = Some v -> no_empty_key v = false -> no_empty_key (VMap mm) = false.
-Proof. intros Hl H. apply (nek_map_false mm (k, v)); [apply lookup_in; exact Hl|right; exact H]. Qed.
-
-(* what one entry contributes at a "*" step *)
-Definition entry_vals (ga : bool) (rest : list str) (kv : str * value) : list value :=
-  if keep_entry ga kv then eval_filtered ga rest (snd kv) else [].
-Definition entry_bad (kv : str * value) : Prop := fst kv = [] \/ no_empty_key (snd kv) = false.
-
-Lemma entry_spec ga rest
-  (IH : forall m, match xw_vfkp rest ga m with
-                  | Ok vs => vs = eval_filtered ga rest m | Panic => no_empty_key m = false | Err _ => False end) kv :
-  match bind (xw_skip_attr (fst kv) ga) (fun skip => if skip then Ok [] else xw_vfkp rest ga (snd kv)) with
-  | Ok y => y = entry_vals ga rest kv
-  | Panic => entry_bad kv
-  | Err _ => False
-  end.
-Proof.
-  destruct kv as [k v]. unfold entry_vals, entry_bad, keep_entry, attr_key. cbn [fst snd].
-  destruct k as [|c k']; cbn [xw_skip_attr bind]; [left; reflexivity|].
-  destruct (Ascii.eqb c hyphen); destruct ga; cbn [andb negb orb]; try reflexivity;
-    (specialize (IH v); destruct (xw_vfkp rest _ v); [exact IH|exact IH|right; exact IH]).
-Qed.
-
-Lemma star_step_map ga rest mm :
-  flat_map (entry_vals ga rest) mm = flat_map (eval_filtered ga rest) (sel_map_f ga star mm).
-Proof.
-  unfold sel_map_f. rewrite star_eqb. rewrite flat_map_map. unfold entry_vals.
-  rewrite (filter_flat_map (fun kv => eval_filtered ga rest (snd kv)) (keep_entry ga) mm). reflexivity.
-Qed.
-
-Theorem xw_vfkp_cases ga : forall ks m,
-  match xw_vfkp ks ga m with
-  | Ok vs => vs = eval_filtered ga ks m
-  | Panic => no_empty_key m = false
-  | Err _ => False
-  end.
+(* the walker = the path semantics with the attribute filter: every key list, every Map *)
+Theorem xw_vfkp_filtered ga : forall ks m, xw_vfkp ks ga m = eval_filtered ga ks m.
 Proof.
   induction ks as [|key rest IH]; intros m.
   - destruct m; reflexivity.
   - cbn [xw_vfkp eval_filtered]. destruct (str_eqb key star) eqn:Ek.
     + apply str_eqb_eq in Ek. subst key.
-      destruct m as [| | | | | | | |mm|l]; try reflexivity.
-      * (* map *)
-        cbn [sel_f].
-        pose proof (rflat_map_spec _ (entry_vals ga rest) entry_bad mm (fun kv _ => entry_spec ga rest IH kv)) as H.
-        match goal with |- match ?r with _ => _ end => change r with
-          (rflat_map (fun kv => bind (xw_skip_attr (fst kv) ga)
-                                  (fun skip => if skip then Ok [] else xw_vfkp rest ga (snd kv))) mm) end.
-        destruct (rflat_map _ mm) as [r|e|].
-        -- rewrite H. apply star_step_map.
-        -- exact H.
-        -- destruct H as [kv [Hin Hb]]. exact (nek_map_false mm kv Hin Hb).
-      * (* list *)
-        cbn [sel_f].
-        set (f := fun v : value => match v with
-                    | VMap mm => rflat_map (fun kv => bind (xw_skip_attr (fst kv) ga)
-                                    (fun skip => if skip then Ok [] else xw_vfkp rest ga (snd kv))) mm
-                    | _ => xw_vfkp rest ga v end).
-        match goal with |- match ?r with _ => _ end => change r with (rflat_map f l) end.
-        set (g := fun v : value => match v with
-                    | VMap mm => flat_map (entry_vals ga rest) mm
-                    | _ => eval_filtered ga rest v end).
-        assert (Hf : forall x, In x l ->
-                  match f x with Ok y => y = g x | Panic => no_empty_key x = false | Err _ => False end).
-        { intros x _. destruct x as [| | | | | | | |xm|xl]; try exact (IH _).
-          unfold f, g.
-          pose proof (rflat_map_spec _ (entry_vals ga rest) entry_bad xm (fun kv _ => entry_spec ga rest IH kv)) as H.
-          destruct (rflat_map _ xm) as [r|e|]; [exact H|exact H|].
-          destruct H as [kv [Hin Hb]]. exact (nek_map_false xm kv Hin Hb). }
-        pose proof (rflat_map_spec f g (fun x => no_empty_key x = false) l Hf) as H.
-        destruct (rflat_map f l) as [r|e|].
-        -- rewrite H. rewrite flat_map_flat_map. apply flat_map_ext. intros x.
-           destruct x; cbn [g flat_map]; rewrite ?star_eqb; cbn [flat_map]; rewrite ?app_nil_r; try reflexivity.
-           apply star_step_map.
-        -- exact H.
-        -- destruct H as [x [Hin Hb]]. exact (nek_list_false l x Hin Hb).
-    + destruct m as [| | | | | | | |mm|l]; try reflexivity.
-      * cbn [sel_f]. unfold sel_map_f. rewrite Ek.
-        destruct (lookup key mm) as [v|] eqn:El; [|reflexivity].
-        cbn [flat_map]. rewrite app_nil_r. specialize (IH v).
-        destruct (xw_vfkp rest ga v); [exact IH|exact IH|exact (nek_lookup_false key mm v El IH)].
-      * cbn [sel_f].
-        set (f := fun v : value => match v with
-                    | VMap mm => match lookup key mm with Some vv => xw_vfkp rest ga vv | None => Ok [] end
-                    | _ => Ok [] end).
-        match goal with |- match ?r with _ => _ end => change r with (rflat_map f l) end.
-        set (g := fun v : value => match v with
-                    | VMap mm => match lookup key mm with Some vv => eval_filtered ga rest vv | None => [] end
-                    | _ => [] end).
-        assert (Hf : forall x, In x l ->
-                  match f x with Ok y => y = g x | Panic => no_empty_key x = false | Err _ => False end).
-        { intros x _. destruct x as [| | | | | | | |xm|xl]; try reflexivity.
-          unfold f, g. destruct (lookup key xm) as [vv|] eqn:El; [|reflexivity].
-          specialize (IH vv). destruct (xw_vfkp rest ga vv); [exact IH|exact IH|exact (nek_lookup_false key xm vv El IH)]. }
-        pose proof (rflat_map_spec f g (fun x => no_empty_key x = false) l Hf) as H.
-        destruct (rflat_map f l) as [r|e|].
-        -- rewrite H. rewrite flat_map_flat_map. apply flat_map_ext. intros x.
-           destruct x; cbn [g flat_map]; rewrite ?Ek; try reflexivity.
-           unfold sel_map_f. rewrite Ek. destruct (lookup key m); cbn [flat_map]; rewrite ?app_nil_r; reflexivity.
-        -- exact H.
-        -- destruct H as [x [Hin Hb]]. exact (nek_list_false l x Hin Hb).
+      destruct m as [| | | | | | | |mm|l]; try reflexivity; cbn [sel_f].
+      * rewrite <- star_step_map. apply flat_map_ext. intros kv. rewrite IH. reflexivity.
+      * rewrite flat_map_flat_map. apply flat_map_ext. intros x.
+        destruct x; rewrite ?star_eqb; cbn [flat_map]; rewrite ?app_nil_r; try apply IH.
+        rewrite <- star_step_map. apply flat_map_ext. intros kv. rewrite IH. reflexivity.
+    + destruct m as [| | | | | | | |mm|l]; try reflexivity; cbn [sel_f].
+      * unfold sel_map_f. rewrite Ek. destruct (lookup key mm) as [v|]; [|reflexivity].
+        cbn [flat_map]. rewrite app_nil_r. apply IH.
+      * rewrite flat_map_flat_map. apply flat_map_ext. intros x.
+        destruct x; rewrite ?Ek; try reflexivity.
+        unfold sel_map_f. rewrite Ek. destruct (lookup key m); cbn [flat_map]; rewrite ?app_nil_r; [apply IH|reflexivity].
 Qed.
 
-Theorem xw_vfkp_partial ga ks m vs : xw_vfkp ks ga m = Ok vs -> vs = eval_filtered ga ks m.
-Proof. intros H. pose proof (xw_vfkp_cases ga ks m) as C. rewrite H in C. exact C. Qed.
-
-Theorem xw_vfkp_ok ga ks m : no_empty_key m = true -> xw_vfkp ks ga m = Ok (eval_filtered ga ks m).
-Proof.
-  intros Hn. pose proof (xw_vfkp_cases ga ks m) as C.
-  destruct (xw_vfkp ks ga m) as [vs|e|]; [subst; reflexivity|contradiction|congruence].
-Qed.
-
-Theorem xw_vfkp_no_err ga ks m e : xw_vfkp ks ga m <> Err e.
-Proof. intros H. pose proof (xw_vfkp_cases ga ks m) as C. rewrite H in C. exact C. Qed.
-
-(* the empty key under a wildcard step: k[:1] *)
-Theorem xw_vfkp_empty_key_refuted :
-  exists m ga, xw_vfkp [star] ga m = Panic /\ eval [star] m = [VInt 1] /\
-               values_for_path (fun _ => None) (s ":") m star [] = Ok [VInt 1].
-Proof. exists (VMap [([], VInt 1)]), true. repeat split. Qed.
+(* regression of 3b36840: an empty key at a wildcard step is an ordinary entry *)
+Theorem xw_vfkp_empty_key :
+  xw_vfkp [star] true (VMap [([], VInt 1)]) = [VInt 1] /\
+  xw_vfkp [star] false (VMap [([], VInt 1); (s "-a", VInt 2)]) = [VInt 1] /\
+  values_for_path (fun _ => None) (s ":") (VMap [([], VInt 1)]) star [] = Ok [VInt 1].
+Proof. repeat split. Qed.
 
 (* ---- eval_filtered against eval ---- *)
 Lemma filter_keep_true (mm : entries) : filter (keep_entry true) mm = mm.
@@ -314,10 +136,9 @@ Theorem eval_filtered_differs :
 Proof. exists (VMap [(s "-id", VInt 1); (s "b", VInt 2)]). split; reflexivity. Qed.
 
 Theorem xw_vfkp_core ga ks m :
-  no_empty_key m = true -> ga = true \/ no_star ks = true ->
-  xw_vfkp ks ga m = Ok (vfkp ks [] m).
+  ga = true \/ no_star ks = true -> xw_vfkp ks ga m = vfkp ks [] m.
 Proof.
-  intros Hn Hc. rewrite (xw_vfkp_ok ga ks m Hn), vfkp_eval. f_equal.
+  intros Hc. rewrite xw_vfkp_filtered, vfkp_eval.
   destruct Hc as [->|Hs]; [apply eval_filtered_true|apply eval_filtered_no_star; exact Hs].
 Qed.
 
@@ -328,60 +149,44 @@ Proof.
 Qed.
 
 Theorem xw_values_from_filtered m path ga :
-  no_empty_key m = true -> xw_values_from m path ga = Ok (eval_filtered ga (split1 dot path) m).
-Proof. intros Hn. apply xw_vfkp_ok. exact Hn. Qed.
+  xw_values_from m path ga = eval_filtered ga (split1 dot path) m.
+Proof. apply xw_vfkp_filtered. Qed.
 
 Section Top20.
 Variable pf : str -> option flt.
 Variable sep : str.
 
 Theorem xw_values_from_core m path ga :
-  mem_ascii lbr path = false -> no_trailing_dot path = true -> no_empty_key m = true ->
+  mem_ascii lbr path = false -> no_trailing_dot path = true ->
   ga = true \/ no_star (split1 dot path) = true ->
-  xw_values_from m path ga = values_for_path pf sep m path [].
+  Ok (xw_values_from m path ga) = values_for_path pf sep m path [].
 Proof.
-  intros Hb Ht Hn Hc. rewrite (values_for_path_plain pf sep m path Hb), (path_keys_no_trailing path Ht).
-  unfold xw_values_from. rewrite (xw_vfkp_core ga _ m Hn Hc), vfkp_eval. reflexivity.
+  intros Hb Ht Hc. rewrite (values_for_path_plain pf sep m path Hb), (path_keys_no_trailing path Ht).
+  unfold xw_values_from. rewrite (xw_vfkp_core ga _ m Hc), vfkp_eval. reflexivity.
 Qed.
 End Top20.
 
 (* outside that domain the two differ: the core drops a trailing empty segment, the wrapper looks the empty key up *)
 Theorem xw_values_from_trailing_dot_differs :
   exists m path, no_trailing_dot path = false /\
-    xw_values_from m path true = Ok [] /\
+    xw_values_from m path true = [] /\
     values_for_path (fun _ => None) (s ":") m path [] = Ok [VMap [(s "b", VInt 1)]].
 Proof. exists (VMap [(s "a", VMap [(s "b", VInt 1)])]), (s "a."). repeat split. Qed.
 
 (* ================= ValuesAtKeyPath ================= *)
-Theorem xw_values_at_ok m path ga :
-  no_empty_key m = true -> xw_values_at m path ga = Ok (values_at_spec ga (split1 dot path) m).
+Theorem xw_values_at_spec m path ga :
+  xw_values_at m path ga = values_at_spec ga (split1 dot path) m.
 Proof.
-  intros Hn. unfold xw_values_at, values_at_spec.
+  unfold xw_values_at, values_at_spec.
   set (keys := split1 dot path).
-  assert (E : match keys with _ :: _ :: _ => xw_vfkp (removelast keys) ga m | _ => Ok [m] end =
-              Ok (match keys with _ :: _ :: _ => eval_filtered ga (removelast keys) m | _ => [m] end)).
-  { destruct keys as [|a [|b t]]; try reflexivity. apply xw_vfkp_ok. exact Hn. }
-  rewrite E. cbn [bind].
+  assert (E : match keys with _ :: _ :: _ => xw_vfkp (removelast keys) ga m | _ => [m] end =
+              match keys with _ :: _ :: _ => eval_filtered ga (removelast keys) m | _ => [m] end).
+  { destruct keys as [|a [|b t]]; try reflexivity. apply xw_vfkp_filtered. }
+  rewrite E.
   destruct (match keys with _ :: _ :: _ => eval_filtered ga (removelast keys) m | _ => [m] end) as [|p ps].
   - cbn [existsb]. rewrite orb_false_r. destruct (str_eqb (last keys []) star); reflexivity.
   - destruct (str_eqb (last keys []) star); cbn [orb]; [reflexivity|].
     destruct (existsb (xw_map_has (last keys [])) (p :: ps)); reflexivity.
-Qed.
-
-Theorem xw_values_at_partial m path ga vs :
-  xw_values_at m path ga = Ok vs -> vs = values_at_spec ga (split1 dot path) m.
-Proof.
-  unfold xw_values_at, values_at_spec. set (keys := split1 dot path). intros H.
-  assert (E : forall r, match keys with _ :: _ :: _ => xw_vfkp (removelast keys) ga m | _ => Ok [m] end = Ok r ->
-              r = match keys with _ :: _ :: _ => eval_filtered ga (removelast keys) m | _ => [m] end).
-  { intros r Hr. destruct keys as [|a [|b t]]; try (injection Hr as <-; reflexivity).
-    exact (xw_vfkp_partial ga _ m r Hr). }
-  destruct (match keys with _ :: _ :: _ => xw_vfkp (removelast keys) ga m | _ => Ok [m] end) as [r|e|];
-    cbn [bind] in H; try discriminate.
-  rewrite <- (E r eq_refl). destruct r as [|p ps].
-  - injection H as <-. cbn [existsb]. rewrite orb_false_r. destruct (str_eqb (last keys []) star); reflexivity.
-  - destruct (str_eqb (last keys []) star); cbn [orb]; [injection H as <-; reflexivity|].
-    destruct (existsb (xw_map_has (last keys [])) (p :: ps)); injection H as <-; reflexivity.
 Qed.
 
 (* ---- the documented relation to ValuesFromKeyPath ---- *)
